@@ -168,24 +168,9 @@ def observe_table(node):
     return ('table', declared, tuple(rows), tuple(sorted(H)), tuple(sorted(V)), tuple(problems))
 
 
-def _release():
-    """Harness hygiene, not an observation: Context.newdef/newcommand name the generated macro class with the *Token*
-    of the control sequence (a str subclass holding ownerDocument).  CPython does not traverse a type's name, so the
-    cycle class -> name -> document -> context -> class is invisible to the collector and every document that executes
-    \\def would stay in memory for the life of the worker (about 100 KB per case).  Replacing the name by a plain str
-    after the case has been observed makes the dead document collectable again."""
-    import plasTeX
-    for base in (plasTeX.Definition, plasTeX.NewCommand):
-        for c in base.__subclasses__():
-            if type(c.__name__) is not str:
-                q = str(c.__qualname__)
-                c.__name__ = str(c.__name__)
-                c.__qualname__ = q
-
-
 def observe(src):
     from plasTeX.TeX import TeX
-    state.reset()
+    state.reset()       # also releases the previous case's document (state.release_generated_classes)
     try:
         with core.time_limit(15.0):
             tex = TeX()
@@ -197,8 +182,6 @@ def observe(src):
         return ('timeout',)
     except Exception as e:
         return ('raises', type(e).__name__, str(e)[:100])
-    finally:
-        _release()
     return obs
 
 
